@@ -172,6 +172,86 @@ def leg_poison(ns, res, spec):
         js.close()
 
 
+
+def leg_frontend_poison(ns, res, spec):
+    """The poisoned record reaches the engine through a front-end whose own numbering differs from the record number: a CSV file with a header line,
+    comment lines and multi-line cells (record k is not line k), a dataframe with a non-default index, a sqlite table with gaps in rowid; library and
+    command line.  The error must be a query-execution error naming record k."""
+    import os
+    import shutil
+    import sqlite3
+    import subprocess
+    import sys
+    import tempfile
+    import pandas as pd
+    rng = random.Random(spec['seed'] * 23 + spec['shard'])
+    d = tempfile.mkdtemp(prefix='rv-c14-')
+    queries = [('select a1, int(a2)', 'runtime'), ('select a1 where int(a2) > 0', 'runtime'), ('update a2 = int(a2) + 1', 'runtime'), ('select a1, MAX(a2) group by a1', 'runtime'),
+               ('select a1 order by int(a2)', 'runtime'), ('select a1, a2.nosuchmethod()', 'runtime')]
+    try:
+        for n in range(2, 7):
+            for k in range(1, n + 1):
+                for qtext, _cls in queries:
+                    if 'nosuchmethod' in qtext and k != 1:
+                        continue          # fails on the first record whatever the data
+                    rows = [['k%d' % i, str(i * 3)] for i in range(1, n + 1)]
+                    if 'nosuchmethod' not in qtext:
+                        rows[k - 1][1] = 'x%d' % k
+                    names = ['id', 'val']
+                    # CSV: header, comments, a multi-line cell in an earlier record
+                    lines = ['id,val']
+                    for i, r in enumerate(rows):
+                        if rng.random() < 0.4:
+                            lines.append('#note %d' % i)
+                        lines.append(('"%s\nmore"' % r[0] if (i + 1 < k and rng.random() < 0.5) else r[0]) + ',' + r[1])
+                    text = '\n'.join(lines) + '\n'
+                    inp = os.path.join(d, 'in.csv')
+                    with open(inp, 'w', newline='') as f:
+                        f.write(text)
+                    observed = {}
+                    try:
+                        ns.rbql.query_csv(qtext, inp, ',', 'quoted_rfc', os.path.join(d, 'o.csv'), ',', 'quoted_rfc', 'utf-8', [], True, '#')
+                        observed['query_csv'] = (None, '')
+                    except Exception as e:
+                        observed['query_csv'] = (util.error_class(e), str(e))
+                    if (n + k) % 3 == 0:
+                        e_ = dict(os.environ, PYTHONPATH=env.PY_PKG_DIR, PYTHONDONTWRITEBYTECODE='1', HOME=d, PYTHONWARNINGS='ignore')
+                        p = subprocess.run([sys.executable, '-W', 'ignore', '-m', 'rbql', '--input', inp, '--delim', ',', '--policy', 'quoted_rfc', '--with-headers', '--comment-prefix', '#', '--query', qtext, '--output', os.path.join(d, 'o2.csv')],
+                                           env=e_, cwd=d, stdout=subprocess.PIPE, stderr=subprocess.PIPE, timeout=120)
+                        msg = p.stderr.decode('utf-8', 'replace')
+                        observed['cli'] = ('runtime' if 'Error [query execution]' in msg else (None if p.returncode == 0 else 'other'), msg)
+                    df = pd.DataFrame(rows, columns=names, index=[100 + 7 * i for i in range(n)])
+                    try:
+                        ns.rbql.query_pandas_dataframe(qtext, df, [])
+                        observed['pandas'] = (None, '')
+                    except Exception as e:
+                        observed['pandas'] = (util.error_class(e), str(e))
+                    conn = sqlite3.connect(':memory:')
+                    conn.execute('CREATE TABLE t (id TEXT, val TEXT)')
+                    conn.executemany('INSERT INTO t VALUES (?, ?)', [['gap', '0']] + rows[:1] + [['gap', '0']] + rows[1:])
+                    conn.execute("DELETE FROM t WHERE id = 'gap'")
+                    conn.commit()
+                    try:
+                        ns.sqlite.query_sqlite_to_csv(qtext, conn, 't', os.path.join(d, 'o3.csv'), ',', 'quoted', 'utf-8', [])
+                        observed['sqlite'] = (None, '')
+                    except Exception as e:
+                        observed['sqlite'] = (util.error_class(e), str(e))
+                    conn.close()
+                    for fe, (cls, msg) in sorted(observed.items()):
+                        res.evaluations += 1
+                        res.count('frontend_poison_runs')
+                        res.count('frontend_poison_runs:' + fe)
+                        res.distinct_disjoint += 1
+                        case = {'leg': 'frontend-poison', 'front_end': fe, 'query_text': qtext, 'n': n, 'k': k, 'csv_text': text}
+                        if cls != 'runtime':
+                            res.violation('py:frontend-poison-error-class:' + fe, '[py/%s] %s with record %d of %d poisoned: error class %r (%s), expected a query-execution error' % (fe, qtext, k, n, cls, msg[:150]), case)
+                        elif k not in util.record_numbers(msg):
+                            res.violation('py:frontend-poison-wrong-record:' + fe, '[py/%s] %s with record %d of %d poisoned: the message %r does not name record %d (CSV text %r)' % (fe, qtext, k, n, msg[:150], k, text), case)
+        res.sample({'leg': 'frontend-poison', 'queries': [q for q, _c in queries], 'front_ends': ['query_csv', 'cli', 'pandas', 'sqlite']})
+    finally:
+        shutil.rmtree(d, ignore_errors=True)
+
+
 def leg_parsing(ns, res, spec):
     rng = random.Random(spec['seed'] * 13 + spec['shard'])
     for name, qtext in PARSING_QUERIES:
@@ -417,7 +497,7 @@ def leg_warnings(ns, res, spec):
 
 
 def plan(tier, seed):
-    specs = [{'kind': 'poison'}, {'kind': 'parsing'}, {'kind': 'io'}]
+    specs = [{'kind': 'poison'}, {'kind': 'parsing'}, {'kind': 'io'}, {'kind': 'frontend-poison'}]
     specs += [{'kind': 'warnings', 'n': 12 if tier == 'quick' else 150} for _ in range(4 if tier == 'quick' else 12)]
     if tier == 'thorough':
         specs += [{'kind': 'poison'} for _ in range(6)]
@@ -426,14 +506,14 @@ def plan(tier, seed):
 
 def run_shard(spec, res):
     ns = env.import_rbql()
-    {'poison': leg_poison, 'parsing': leg_parsing, 'io': leg_io, 'warnings': leg_warnings}[spec['kind']](ns, res, spec)
+    {'poison': leg_poison, 'frontend-poison': leg_frontend_poison, 'parsing': leg_parsing, 'io': leg_io, 'warnings': leg_warnings}[spec['kind']](ns, res, spec)
 
 
 def summarize(tier, seed, m):
     return {
-        'rule': 'fault enumeration: one (and two: the first must be named) poisoned record at every position k of tables of 1..6 records x 13 clause placements (SELECT, WHERE, ORDER BY key, GROUP BY key, aggregate argument, aggregate over a failing expression, UPDATE right-hand side, UPDATE target beyond the record, JOIN key on A, JOIN key on B, missing field under .upper() in SELECT / WHERE, UNNEST list) with poison kinds non-numeric cell under int() / numeric aggregate, missing field, missing join key; %d statically detectable mistakes x 6 spelling / header variants (parsing error, zero records written); an invalid byte sequence at every offset of a UTF-8 file x 7 sequences x 3 chunk sizes, header / column-list inconsistencies, defective quoted_rfc quoting (IO-handling error); every subset of the anomalies {ragged, malformed quote, separator in simple output, BOM} (+ None from short records) on header-less full-scan queries with the exact iff and the cited record numbers. distinct_nontrivial counts enumerated scenarios.' % len(PARSING_QUERIES),
+        'rule': 'fault enumeration: one (and two: the first must be named) poisoned record at every position k of tables of 1..6 records x 13 clause placements (SELECT, WHERE, ORDER BY key, GROUP BY key, aggregate argument, aggregate over a failing expression, UPDATE right-hand side, UPDATE target beyond the record, JOIN key on A, JOIN key on B, missing field under .upper() in SELECT / WHERE, UNNEST list) with poison kinds non-numeric cell under int() / numeric aggregate, missing field, missing join key; %d statically detectable mistakes x 6 spelling / header variants (parsing error, zero records written); an invalid byte sequence at every offset of a UTF-8 file x 7 sequences x 3 chunk sizes, header / column-list inconsistencies, defective quoted_rfc quoting (IO-handling error); every subset of the anomalies {ragged, malformed quote, separator in simple output, BOM} (+ None from short records) on header-less full-scan queries with the exact iff and the cited record numbers. the poisoned record at every position of 2-6 record tables delivered by front-ends whose own numbering differs from the record number (CSV with header line, comment lines and multi-line cells through query_csv and the command line; a dataframe with a non-default index; a sqlite table with rowid gaps) under six query shapes: query-execution error naming record k; distinct_nontrivial counts enumerated scenarios.' % len(PARSING_QUERIES),
         'exhaustive': True,
-        'required': ['header_separator_runs', 'poison_runs', 'parsing_runs', 'bad_byte_runs', 'inconsistent_input_runs', 'warning_runs', 'list_warning_runs', 'field_name_checks', 'no_write_before_parsing_error_checks', 'js_cases',
+        'required': ['frontend_poison_runs:query_csv', 'frontend_poison_runs:cli', 'frontend_poison_runs:pandas', 'frontend_poison_runs:sqlite', 'header_separator_runs', 'poison_runs', 'parsing_runs', 'bad_byte_runs', 'inconsistent_input_runs', 'warning_runs', 'list_warning_runs', 'field_name_checks', 'no_write_before_parsing_error_checks', 'js_cases',
                      'warning_iff:bom:present', 'warning_iff:fields:present', 'warning_iff:none:present', 'warning_iff:quote:present', 'warning_iff:sep:present'] + ['poison:' + c for c in CLAUSES],
         'assumptions': ['poison scenarios carry no TOP/LIMIT bound (see C02: the record behind the bound may or may not be evaluated)', 'error texts are never compared: class + record number (tolerant pattern) + field name'],
     }
